@@ -231,7 +231,12 @@ func c07Replay(args []string) int {
 					_, e := tr.Read()
 					if e != nil {
 						if strings.Contains(e.Error(), "unable to find element") {
-							obs = []interface{}{"missing"}
+							// EDITokens!ElemLookup "missing": a *fatal* error (the statement: "is a fatal error unless a default is declared")
+							if cl := classify(e); cl == "fatal" {
+								obs = []interface{}{"missing"}
+							} else {
+								obs = []interface{}{"missing", "but the error is not fatal: " + cl}
+							}
 						} else {
 							obs = []interface{}{"error", e.Error()}
 						}
